@@ -153,7 +153,9 @@ COQ_INCLUDES = ["-Q", "theories", "GV", "-Q", "gen", "GVgen"]
 
 def coqc(path, timeout=1800):
     """Compile one file (cases files, property files for Print Assumptions)."""
-    rc, out, err = sh(["timeout", str(timeout), "coqc"] + COQ_INCLUDES + [path], cwd=COQ, timeout=timeout + 30)
+    cmd = "ulimit -s unlimited 2>/dev/null || ulimit -s 1000000 2>/dev/null; exec timeout %d coqc %s %s" % (
+        timeout, " ".join(COQ_INCLUDES), path)
+    rc, out, err = sh(["bash", "-c", cmd], cwd=COQ, timeout=timeout + 30)
     return rc == 0, out, err
 
 
